@@ -614,6 +614,11 @@ class World:
         if root is not None and root not in members:
             self.monitor('root_not_member', rank=me, gid=gid, slot=idx,
                          root=root, members=list(members), op=kind)
+        t_ = payload.get('tensor')
+        if isinstance(t_, torch.Tensor) and not _is_dense(t_):
+            self.monitor('non_dense_buffer', rank=me, gid=gid, slot=idx,
+                         op=kind, shape=list(t_.shape),
+                         stride=list(t_.stride()))
         self.log(
             me, 'issue', group=gid, slot=idx, kind=kind, root=root,
             numel=meta.get('numel'), shape=meta.get('shape'),
@@ -774,7 +779,7 @@ class _NGSlot:
 
 def _meta(kind: str, p: dict[str, Any], root: int | None) -> dict[str, Any]:
     t = p.get('tensor')
-    if kind in ('all_reduce', 'broadcast'):
+    if kind in ('all_reduce', 'broadcast', 'reduce', 'gather', 'scatter'):
         return {
             'numel': t.numel(), 'shape': list(t.shape),
             'dtype': str(t.dtype).replace('torch.', ''),
@@ -799,7 +804,7 @@ def _meta(kind: str, p: dict[str, Any], root: int | None) -> dict[str, Any]:
 
 
 def _snapshot(kind: str, p: dict[str, Any], root: int | None, me: int) -> Any:
-    if kind == 'all_reduce':
+    if kind in ('all_reduce', 'reduce', 'gather'):
         return p['tensor'].detach().clone()
     if kind == 'broadcast' and root == me:
         return p['tensor'].detach().clone()
@@ -820,8 +825,37 @@ def _snap_equal(a: Any, b: Any) -> bool:
             torch.nan_to_num(a), torch.nan_to_num(b))))
 
 
+def _raw(t: torch.Tensor) -> torch.Tensor:
+    """The tensor's elements in STORAGE order.  Real back-ends move raw
+    memory: a dense but non-contiguous tensor (e.g. column-major eigenvectors)
+    is transferred in storage order, not in logical order."""
+    if t.is_contiguous():
+        return t.view(-1) if t.dim() != 1 else t
+    if _is_dense(t):
+        return torch.as_strided(t, (t.numel(),), (1,), t.storage_offset())
+    return t.reshape(-1)       # not dense: flagged by the monitor at issue
+
+
+def _is_dense(t: torch.Tensor) -> bool:
+    if t.numel() == 0 or t.is_contiguous():
+        return True
+    # dense and non-overlapping: strides are a permutation of a contiguous layout
+    dims = sorted(((st, sz) for st, sz in zip(t.stride(), t.shape) if sz > 1))
+    expect = 1
+    for st, sz in dims:
+        if st != expect:
+            return False
+        expect *= sz
+    return True
+
+
 def _apply(kind: str, members: tuple[int, ...], joined: dict[int, dict]) -> None:
     with torch.no_grad():
+        if kind in ('all_reduce', 'broadcast', 'reduce'):
+            # operate on raw storage order like real back-ends
+            joined = {r: dict(p) for r, p in joined.items()}
+            for r in joined:
+                joined[r]['tensor'] = _raw(joined[r]['tensor'])
         if kind == 'all_reduce':
             ts = [joined[r]['tensor'] for r in members]
             acc = ts[0].detach().clone()
@@ -838,6 +872,23 @@ def _apply(kind: str, members: tuple[int, ...], joined: dict[int, dict]) -> None
             for r in members:
                 if r != root:
                     joined[r]['tensor'].copy_(src)
+        elif kind == 'reduce':
+            root = joined[members[0]]['_root']
+            ts = [joined[r]['tensor'] for r in members]
+            acc = ts[0].detach().clone()
+            for t in ts[1:]:
+                acc = acc + t
+            joined[root]['tensor'].copy_(acc)
+        elif kind == 'gather':
+            root = joined[members[0]]['_root']
+            lst = joined[root]['gather_list']
+            for i, m in enumerate(members):
+                lst[i].copy_(joined[m]['tensor'])
+        elif kind == 'scatter':
+            root = joined[members[0]]['_root']
+            lst = joined[root]['scatter_list']
+            for i, m in enumerate(members):
+                joined[m]['tensor'].copy_(lst[i])
         elif kind == 'all_gather':
             for r in members:
                 lst = joined[r]['tensor_list']
@@ -890,6 +941,7 @@ def _install_patches() -> None:
         'is_initialized', 'get_rank', 'get_world_size', 'new_group',
         'all_reduce', 'broadcast', 'all_gather', 'reduce_scatter', 'barrier',
         'all_gather_object', 'get_process_group_ranks', 'is_available',
+        'reduce', 'gather', 'scatter',
     ]
     for n in names:
         _ORIG[n] = getattr(dist, n)
@@ -992,6 +1044,36 @@ def _install_patches() -> None:
             {'output': output, 'input_list': input_list}, async_op,
         )
 
+    def reduce(tensor, dst=None, op=None, group=None, async_op=False,
+               group_dst=None):
+        w = _w()
+        if w is None:
+            return _ORIG['reduce'](tensor, dst, group=group, async_op=async_op)
+        return w.collective(
+            'reduce', group, {'tensor': tensor, 'op': _opname(op)}, async_op,
+            root=dst,
+        )
+
+    def gather(tensor, gather_list=None, dst=None, group=None,
+               async_op=False, group_dst=None):
+        w = _w()
+        if w is None:
+            return _ORIG['gather'](tensor, gather_list, dst, group, async_op)
+        return w.collective(
+            'gather', group, {'tensor': tensor, 'gather_list': gather_list},
+            async_op, root=dst,
+        )
+
+    def scatter(tensor, scatter_list=None, src=None, group=None,
+                async_op=False, group_src=None):
+        w = _w()
+        if w is None:
+            return _ORIG['scatter'](tensor, scatter_list, src, group, async_op)
+        return w.collective(
+            'scatter', group, {'tensor': tensor, 'scatter_list': scatter_list},
+            async_op, root=src,
+        )
+
     def barrier(group=None, async_op=False, device_ids=None):
         w = _w()
         if w is None:
@@ -1018,6 +1100,9 @@ def _install_patches() -> None:
     dist.all_gather = all_gather
     dist.reduce_scatter = reduce_scatter
     dist.barrier = barrier
+    dist.reduce = reduce
+    dist.gather = gather
+    dist.scatter = scatter
     dist.all_gather_object = all_gather_object
 
     # ---- futures ---------------------------------------------------------
